@@ -62,7 +62,8 @@ def plan(tier, prop):
                             "insufficient_resource", "same_chip_group",
                             "location", "reservation_per_chip",
                             "custom_vertex_order", "custom_chip_order",
-                            "vertex_needing_nothing", "dead_chip"] +
+                            "vertex_needing_nothing", "dead_chip",
+                            "tight_multi_resource"] +
                            ["placer_" + p for p in PLACERS],
         "knob_ranges": {"machine": "1x1..8x8", "vertices": "0-40",
                         "effort": [0.0, 0.05, 0.3, 1.0],
@@ -145,8 +146,15 @@ class PlaceEngine(object):
         t, w = self.t, self.w
         par, cons = self.par, self.cons
         W, H = 1 + t.draw_small(8, 0.8), 1 + t.draw_small(8, 0.8)
-        cores = [18, 18, 17, 8, 4, 2, 1][t.draw(7)]
-        sdram = [100000, 100000, 1000, 0][t.draw(4)]
+        # "tight": few cores and little SDRAM per chip with small SDRAM
+        # demands, so that swaps evict vertices and a second resource binds
+        self.tight = t.draw(3) == 0
+        if self.tight:
+            cores = [2, 3, 4][t.draw(3)]
+            sdram = [8, 16, 32][t.draw(3)]
+        else:
+            cores = [18, 18, 17, 8, 4, 2, 1][t.draw(7)]
+            sdram = [100000, 100000, 1000, 0][t.draw(4)]
         base = collections.OrderedDict([(par.Cores, cores), (par.SDRAM, sdram),
                                         (par.SRAM, 1024)])
         exc = {}
@@ -318,12 +326,15 @@ class PlaceEngine(object):
         g = self.g = prgen.Graph()
         complete = t.draw(3) == 0
         n_ops = t.op_count(0, 16)
+        g.sdram_max = 9 if self.tight else 2000
         for _ in range(n_ops):
             t.next_segment()
             prgen.add_net(t, g, par, max_fanout=6)
         t.begin_tail()
         for _ in range(t.draw_small(8, 0.6)):
-            prgen.new_vertex(t, g, par)
+            prgen.new_vertex(t, g, par, sdram_max=g.sdram_max)
+        if self.tight:
+            w.probe("tight_multi_resource")
         if complete:
             # unit demand of a single resource (or nothing)
             for v in g.vertices_resources:
